@@ -112,6 +112,15 @@ fn c16_corpus(tier: Tier) -> Vec<(String, Spec)> {
     // definitions with disambiguation errors (the error list has its own seam)
     v.push(("conflict2".into(), Spec::new(true, vec![vcore::spec::Pat::regex("a+"), vcore::spec::Pat::regex("[a-c]+").prio(2), vcore::spec::Pat::regex("b+"), vcore::spec::Pat::regex("[b-d]+").prio(2)])));
     v.push(("conflict3".into(), Spec::new(true, vec![vcore::spec::Pat::regex("ab"), vcore::spec::Pat::regex("a[b]"), vcore::spec::Pat::regex("[a]b"), vcore::spec::Pat::regex("cd"), vcore::spec::Pat::regex("c[d]")])));
+    // definitions that are REJECTED: the diagnostics are part of the output too
+    v.push(("undef_sub".into(), Spec::new(true, vec![vcore::spec::Pat::regex("(?&nope)x"), vcore::spec::Pat::regex("(?&a)(?&zz)")]).with_sub("a", "a").with_sub("b", "b").with_sub("c", "c").with_sub("d", "d")));
+    v.push(("nullable_many".into(), Spec::new(true, vec![vcore::spec::Pat::regex("a*"), vcore::spec::Pat::regex("b?"), vcore::spec::Pat::regex("(c|)"), vcore::spec::Pat::skip("d*")])));
+    v.push(("nonutf8_many".into(), Spec::new(true, vec![vcore::spec::Pat::bregex(b"\\xff"), vcore::spec::Pat::bregex(b"[\\x80-\\x90]"), vcore::spec::Pat::regex("(?-u:\\xfe)")])));
+    // the same regex source with and without ignore(case) (state must not leak between calls)
+    v.push(("kw_plain".into(), Spec::new(true, vec![vcore::spec::Pat::regex("select|from|where"), vcore::spec::Pat::regex("[a-z]+").prio(1)])));
+    v.push(("kw_icase".into(), Spec::new(true, vec![vcore::spec::Pat::regex("select|from|where").icase(), vcore::spec::Pat::regex("[a-z]+").prio(1)])));
+    v.push(("kw_sub1".into(), Spec::new(true, vec![vcore::spec::Pat::regex("(?&d)+x")]).with_sub("d", "[0-9]")));
+    v.push(("kw_sub2".into(), Spec::new(true, vec![vcore::spec::Pat::regex("(?&d)+x")]).with_sub("d", "[0-7]")));
     if tier == Tier::Thorough {
         // one representative per distinct graph shape of the quick family
         let fam = vcore::enumerate::family(Tier::Quick);
@@ -233,6 +242,30 @@ pub fn c16(a: &Args) -> Report {
                     format!("permuting the hash-iteration order at seam call(s) {:?} ({site}) changes the {what}", j.script),
                     json!({"spec": corpus[j.def].1, "sm": j.sm, "script": j.script}),
                 ));
+            }
+        }
+    }
+    // history independence: a definition's output must not depend on what the same thread expanded
+    // before (caches, statics): all definitions in order on one fresh thread, in reverse order on
+    // another, each compared with the run-0 output
+    for sm in [false, true] {
+        for rev in [false, true] {
+            let srcs2 = srcs.clone();
+            let outs: Vec<(usize, String)> = std::thread::spawn(move || {
+                let mut order: Vec<usize> = (0..srcs2.len()).collect();
+                if rev {
+                    order.reverse();
+                }
+                order.into_iter().map(|d| (d, gen_with(&srcs2[d], sm, vec![]).tokens)).collect()
+            })
+            .join()
+            .unwrap();
+            for (d, t) in outs {
+                rep.count("traces_validated_against_impl", 1);
+                rep.count("history_order_runs", 1);
+                if t != bases[d * 2 + sm as usize].0.tokens && bases[d * 2 + sm as usize].1 {
+                    rep.violations.push(viol("HISTORY-DEPENDENT", "c16", format!("{} sm={sm}", corpus[d].0), format!("the output for this definition differs when other definitions were expanded before it on the same thread ({} order)", if rev { "reverse" } else { "forward" }), json!({"spec": corpus[d].1, "sm": sm, "script": [], "history": true})));
+                }
             }
         }
     }
@@ -427,6 +460,8 @@ pub fn c18_skip_cases() -> Vec<(String, Vec<String>)> {
         vec!["skip(\"x\", priority = 3)", "skip(\"[xy]\", priority = 1)", "skip(\"x|y\", priority = 2)", "utf8 = false"],
         vec!["skip \"a\"", "skip \"b\"", "skip(\"[ab]c\")", "error = E"],
         vec!["skip(\"k\", ignore(case))", "skip(\"K\", priority = 9)", "subpattern d = \"[0-9]\"", "skip(\"(?&d)+\")"],
+        vec!["subpattern d = b\"[\\x80-\\xFF]\"", "utf8 = false", "skip(\"(?&d)+\")", "extras = u8"],
+        vec!["utf8 = false", "subpattern d = \"(?-u:\\xff)\"", "error = E", "skip(\"x(?&d)\")"],
     ];
     let mut cases = vec![];
     for set in skips {
